@@ -153,11 +153,20 @@ def main():
             for chk in RELEVANT[rel]:
                 env = dict(ENV, VERIF_SCALE=scale)
                 try:
-                    p = subprocess.run(["./check", chk, "--tier", "quick"], cwd=VERIF, env=env, capture_output=True, text=True, timeout=900)
-                    rc = p.returncode
-                    keys = re.findall(r"^  key=(\S+)", p.stdout, re.M)
-                except subprocess.TimeoutExpired:
-                    rc, keys = 124, []
+                    # own session: on timeout the whole group is killed (a mutant that loops forever
+                    # would otherwise leave its language-server / CLI children spinning)
+                    pr = subprocess.Popen(["./check", chk, "--tier", "quick"], cwd=VERIF, env=env, stdout=subprocess.PIPE, stderr=subprocess.PIPE, text=True, start_new_session=True)
+                    try:
+                        out_s, _ = pr.communicate(timeout=900)
+                        rc = pr.returncode
+                        keys = re.findall(r"^  key=(\S+)", out_s, re.M)
+                    except subprocess.TimeoutExpired:
+                        import signal
+                        os.killpg(pr.pid, signal.SIGKILL)
+                        pr.wait()
+                        rc, keys = 124, []
+                except OSError:
+                    rc, keys = 125, []
                 if rc == 1:
                     killed_by.append((chk, keys[:3]))
                     break
